@@ -27,10 +27,14 @@ type SvcSpec struct {
 	NoNode bool     // service without Node / node(id:)
 	// NodeField, if set, is this service's declaration of the Relay lookup (default: node(id: ID!): Node)
 	NodeField string
+	// NodeExtra, if set, is a field this service's Node interface declares besides id (every Node type of the service has it)
+	NodeExtra string
+	// RootPrefix, if set, renames this service's root types (schema { query: <prefix>Query mutation: <prefix>Mutation ... })
+	RootPrefix string
 }
 
 func (s *SvcSpec) clone() *SvcSpec {
-	c := &SvcSpec{URL: s.URL, Types: map[string][]string{}, Impl: map[string]string{}, NoNode: s.NoNode, NodeField: s.NodeField}
+	c := &SvcSpec{URL: s.URL, Types: map[string][]string{}, Impl: map[string]string{}, NoNode: s.NoNode, NodeField: s.NodeField, NodeExtra: s.NodeExtra, RootPrefix: s.RootPrefix}
 	for k, v := range s.Types {
 		c.Types[k] = append([]string{}, v...)
 	}
@@ -68,7 +72,7 @@ func (s *SvcSpec) hasType(name string) bool { _, ok := s.Types[name]; return ok 
 func (s *SvcSpec) SDL() string {
 	var b strings.Builder
 	if !s.NoNode {
-		b.WriteString("interface Node { id: ID! }\n")
+		fmt.Fprintf(&b, "interface Node { id: ID! %s }\n", s.NodeExtra)
 	}
 	for _, t := range s.Order {
 		impl := s.Impl[t]
@@ -87,6 +91,9 @@ func (s *SvcSpec) SDL() string {
 		b.WriteString(" {")
 		if kw == "type" && implList(impl)["Node"] {
 			b.WriteString(" id: ID!")
+			if s.NodeExtra != "" {
+				b.WriteString(" " + s.NodeExtra)
+			}
 		}
 		for _, f := range s.Types[t] {
 			b.WriteString(" " + f)
@@ -101,12 +108,22 @@ func (s *SvcSpec) SDL() string {
 		}
 		q = append([]string{nf}, q...)
 	}
-	fmt.Fprintf(&b, "type Query { %s }\n", strings.Join(q, " "))
+	fmt.Fprintf(&b, "type %sQuery { %s }\n", s.RootPrefix, strings.Join(q, " "))
 	if len(s.Mut) > 0 {
-		fmt.Fprintf(&b, "type Mutation { %s }\n", strings.Join(s.Mut, " "))
+		fmt.Fprintf(&b, "type %sMutation { %s }\n", s.RootPrefix, strings.Join(s.Mut, " "))
 	}
 	if len(s.Sub) > 0 {
-		fmt.Fprintf(&b, "type Subscription { %s }\n", strings.Join(s.Sub, " "))
+		fmt.Fprintf(&b, "type %sSubscription { %s }\n", s.RootPrefix, strings.Join(s.Sub, " "))
+	}
+	if s.RootPrefix != "" {
+		b.WriteString("schema { query: " + s.RootPrefix + "Query")
+		if len(s.Mut) > 0 {
+			b.WriteString(" mutation: " + s.RootPrefix + "Mutation")
+		}
+		if len(s.Sub) > 0 {
+			b.WriteString(" subscription: " + s.RootPrefix + "Subscription")
+		}
+		b.WriteString(" }\n")
 	}
 	for _, e := range s.Extra {
 		b.WriteString(e + "\n")
@@ -121,12 +138,14 @@ type Service struct {
 }
 
 type DataOpts struct {
-	EmptyRootList bool
-	DupInList     bool   // duplicates inside entity lists
-	NullEntries   bool   // nullable lists contain null entries
-	ListLen       int    // 0 = default pattern; otherwise length of root lists
-	WeirdIDs      string // "", "hash", "colon", "dot", "space", "numeric"
-	NullRefs      bool   // nullable references are null for some parents
+	EmptyRootList   bool
+	DupInList       bool   // duplicates inside entity lists
+	NullEntries     bool   // nullable lists contain null entries
+	OnlyNullEntries bool   // ... and nothing else
+	ListLen         int    // 0 = default pattern; otherwise length of root lists
+	Pool            int    // number of entities per Node type (0 = 3)
+	WeirdIDs        string // "", "hash", "colon", "dot", "space", "numeric"
+	NullRefs        bool   // nullable references are null for some parents
 }
 
 type World struct {
@@ -171,7 +190,7 @@ func (w *World) index() {
 				w.owner[t.Name+"."+f.Name] = i
 			}
 			if t.Kind == ast.Object && implementsNode(t) {
-				for k := 1; k <= 3; k++ {
+				for k := 1; k <= w.Data.pool(); k++ {
 					w.ids[w.EntityID(t.Name, k)] = [2]string{t.Name, fmt.Sprint(k)}
 				}
 			}
@@ -202,6 +221,13 @@ func (w *World) Schemas() []*ast.Schema {
 		u = append(u, s.Schema)
 	}
 	return u
+}
+
+func (d DataOpts) pool() int {
+	if d.Pool > 0 {
+		return d.Pool
+	}
+	return 3
 }
 
 func (w *World) EntityID(typ string, k int) string {
@@ -286,7 +312,7 @@ func salt(args map[string]interface{}) int {
 }
 
 func (r *resolver) entity(typ string, k int) gqlref.Obj {
-	k = (k-1)%3 + 1
+	k = (k-1)%r.w.Data.pool() + 1
 	return gqlref.Obj{"__t": typ, "id": r.w.EntityID(typ, k)}
 }
 
@@ -408,7 +434,7 @@ func (r *resolver) value(ds *ast.Schema, typ, field string, t *ast.Type, key str
 				ek = fmt.Sprintf("%s.%s%d", key, field, 0)
 				esalt = s
 			}
-			if r.w.Data.NullEntries && !t.Elem.NonNull && i == 1 {
+			if r.w.Data.NullEntries && !t.Elem.NonNull && (i == 1 || r.w.Data.OnlyNullEntries) {
 				out = append(out, nil)
 				continue
 			}
@@ -446,7 +472,7 @@ func (r *resolver) elem(ds *ast.Schema, typ, field string, t *ast.Type, parentKe
 			if !t.NonNull && idx < 0 && r.w.Data.NullRefs && n == 3 {
 				return nil
 			}
-			return r.entity(name, pick%3+1)
+			return r.entity(name, pick%r.w.Data.pool()+1)
 		}
 		if !t.NonNull && idx < 0 && r.w.Data.NullRefs && n == 2 {
 			return nil
@@ -475,7 +501,7 @@ func (r *resolver) elem(ds *ast.Schema, typ, field string, t *ast.Type, parentKe
 		}
 		c := ds.Types[names[tpick%len(names)]]
 		if implementsNode(c) {
-			return r.entity(c.Name, pick%3+1)
+			return r.entity(c.Name, pick%r.w.Data.pool()+1)
 		}
 		return gqlref.Obj{"__t": c.Name, "key": ek}
 	case ast.Enum:
